@@ -249,15 +249,20 @@ def main():
     sc, ov, r, fn_ranges, lt = verify_tree(keep=keep, extra=extra)
     # a change that moves parser.rs outside the Verus subset must not take the properties that do not depend on the
     # parser with it: re-run without the parser overlay (parser.rs is then plain Rust that Verus ignores)
-    if r is not None and r.front_end_error and not any(re.search(pat, "xml_schema_generator::parser::x") for pat in P["units"]):
+    parser_free = not any(re.search(pat, "xml_schema_generator::parser::x") for pat in P["units"])
+    retry = False
+    if parser_free and r is not None and r.front_end_error:
         files = set()
         for d in r.diags:
-            for sp in engine.diag_spans(d):
-                files.add(sp[0])
-        if files and all(f == "src/parser.rs" for f in files):
-            log("note: the annotated parser.rs is rejected by the Verus front end; verifying", pid, "without the parser overlay")
-            sc.__exit__()
-            sc, ov, r, fn_ranges, lt = verify_tree(keep=keep, extra=extra, vc_files=[f for f in engine.VC_ORDER if f != "parser.vc"])
+            for sp in d.get("spans", []):      # the diagnostic's own spans, not those of its notes
+                files.add(sp["file_name"])
+        retry = bool(files) and all(f == "src/parser.rs" for f in files)
+    if parser_free and r is None and ov.problems and all(p.startswith("parser.rs:") for p in ov.problems):
+        retry = True
+    if retry:
+        log("note: the parser overlay cannot be applied or is rejected by the Verus front end; verifying", pid, "(which does not depend on the parser) without it")
+        sc.__exit__()
+        sc, ov, r, fn_ranges, lt = verify_tree(keep=keep, extra=extra, vc_files=[f for f in engine.VC_ORDER if f != "parser.vc"])
     try:
         return decide(pid, P, tier, seed, sc, ov, r, fn_ranges, lt, t0, replay)
     finally:
